@@ -24,6 +24,7 @@ def check(repo: Repo, rep, tier):
     cont(repo, rep)
     assign_agree(repo, rep)
     flush(repo, rep)
+    file_loops_total(repo, rep)
     same_type(repo, rep)
     clone_def(repo, rep)
     pair_len(repo, rep)
@@ -68,6 +69,9 @@ def check(repo: Repo, rep, tier):
     definite_init(repo, rep)
     element_parens(repo, rep)
     fmt_taint_fragment(repo, rep)
+    from .C03 import io_encoding
+
+    io_encoding(repo, rep)
 
 
 def cont(repo: Repo, rep):
@@ -320,6 +324,59 @@ def flush(repo: Repo, rep):
                 else:
                     rep.ok("R-FLUSH", f, a.ast, f"`{X}` always flushed by an insert change")
     rep.floor("R-FLUSH", "accumulation sites", n, 2)
+
+
+def file_loops_total(repo: Repo, rep):
+    rep.rule(
+        "R-FILE-LOOP-TOTAL",
+        "at the end of the session every file that has changes is looked at: a loop over `<recorder>.files()` in the session-finish hook or in the "
+        "in-process driver is never left early - no `break` that belongs to it and no `return` inside it (`continue` skips one file, which is what a file "
+        "without a difference needs).  Leaving the display loop at the first file without a difference hides the files behind it: their changes are "
+        "neither shown nor counted, the category is not applied although it was approved",
+    )
+    n = 0
+    for key in ("pytest_plugin.py::pytest_sessionfinish", "testing/_example.py::Example.run_inline"):
+        f = repo.func(key)
+        def files_iter(e, depth=0):
+            # `<recorder>.files()`, also behind list()/sorted()/tuple() or a local that holds it
+            if isinstance(e, ast.Call) and isinstance(e.func, ast.Attribute) and e.func.attr == "files" and not e.args:
+                return True
+            if isinstance(e, ast.Call) and isinstance(e.func, ast.Name) and e.func.id in ("list", "sorted", "tuple", "iter") and e.args:
+                return files_iter(e.args[0], depth)
+            if isinstance(e, ast.Name) and depth < 2:
+                vals = [st.value for st in body_nodes(f.node) if isinstance(st, ast.Assign) and any(isinstance(t, ast.Name) and t.id == e.id for t in st.targets)]
+                return bool(vals) and all(files_iter(v, depth + 1) for v in vals)
+            return False
+
+        for lp in [x for x in body_nodes(f.node) if isinstance(x, ast.For) and files_iter(x.iter)]:
+            n += 1
+            leaves = []
+            todo = list(lp.body)
+            while todo:
+                x = todo.pop()
+                if isinstance(x, (ast.FunctionDef, ast.AsyncFunctionDef, ast.ClassDef, ast.Lambda)):
+                    continue
+                if isinstance(x, ast.Return):
+                    leaves.append(x)
+                if isinstance(x, ast.Break):
+                    leaves.append(x)
+                if isinstance(x, (ast.For, ast.While, ast.AsyncFor)):
+                    # a break inside a nested loop belongs to that loop; a return still leaves
+                    leaves += [y for y in ast.walk(x) if isinstance(y, ast.Return)]
+                    continue
+                todo.extend(ast.iter_child_nodes(x))
+            if leaves:
+                rep.violation(
+                    "R-FILE-LOOP-TOTAL",
+                    f,
+                    leaves[0],
+                    f"{f.qualname} leaves its loop over `{norm(lp.iter)}` early (`{short(leaves[0], 30)}`): the files behind the one that triggers it are not looked at - their changes are not shown, "
+                    "not counted and not written although the category was approved",
+                    construct=f"{f.qualname}:{norm(lp.iter)}:left-early",
+                )
+            else:
+                rep.ok("R-FILE-LOOP-TOTAL", f, lp, f"every file of `{norm(lp.iter)}` is visited")
+    rep.floor("R-FILE-LOOP-TOTAL", "loops over <recorder>.files()", n, 3)
 
 
 def same_type(repo: Repo, rep):
